@@ -21,6 +21,11 @@ var c10Keys = []string{
 	"lng/x/" + strings.Repeat("t", 256), // a segment no real directory can hold: refused there, and nothing may stay behind
 }
 
+// names next to the key "n" that look like scratch files of an upload of it
+var c10Scratch = []string{"n.tmp", "n~", "n.part", "n.new", ".n.tmp", "n.bak", ".n.swp"}
+
+func init() { c10Keys = append(c10Keys, c10Scratch...) }
+
 // the labels an operation addressed to (bucket, key) may change
 func c10Addressed(b, k string) []string {
 	out := []string{"o|" + b + "|" + k + "\x00", "l|" + b + "|" + k + "\x00", "f|" + b + "|", "b|" + b + "\x00", "u|" + b + "|" + k + "\x00"}
@@ -273,10 +278,21 @@ func runC10(tier string, seed uint64) {
 					b = []string{"_meta", ".", "..", "metadata"}[rng.Intn(4)]
 				}
 				k := c10Keys[rng.Intn(len(c10Keys))]
+				w := rng.Intn(100)
+				if j < len(c10Scratch)+1 {
+					// every history opens by storing the names a careless backend might use for the scratch copy of
+					// an upload of "n", and then uploads "n": they are keys of their own
+					b, w = buckets[0], 0
+					if j < len(c10Scratch) {
+						k = c10Scratch[j]
+					} else {
+						k = "n"
+					}
+				}
 				ek := k
 				addressed := c10Addressed(b, ek)
 				var r Resp
-				switch w := rng.Intn(100); {
+				switch {
 				case w < 40:
 					var m []KV
 					if rng.Intn(3) > 0 {
